@@ -233,7 +233,30 @@ class Interp:
         self.raise_py("AttributeError", f"module {m.name} has no attribute {attr}")
 
     def resolve(self, dotted):
-        """resolve 'pkg.mod.Class.method' to a value"""
+        """resolve 'pkg.mod.Class.method' to a value; 'pkg.mod.Class.method::inner' extracts the function `inner`
+        defined inside `method` (mechanical extraction: it is bound to the MODULE scope only, so it must not use
+        variables of the enclosing function - checked)"""
+        if "::" in dotted:
+            outer_q, inner = dotted.split("::", 1)
+            outer = self.resolve(outer_q)
+            f = outer.func if isinstance(outer, BoundMethod) else outer
+            node = None
+            for n in ast.walk(f.node):
+                if isinstance(n, ast.FunctionDef) and n.name == inner and n is not f.node:
+                    node = n
+                    break
+            if node is None:
+                raise Unsupported(f"no nested function {inner} in {outer_q}")
+            mod = self.modules[f.module]
+            params = {a.arg for a in node.args.args + node.args.kwonlyargs + node.args.posonlyargs}
+            stored = {x.id for x in ast.walk(node) if isinstance(x, ast.Name) and isinstance(x.ctx, ast.Store)}
+            outer_locals = {x.id for x in ast.walk(f.node) if isinstance(x, ast.Name) and isinstance(x.ctx, ast.Store)} | {a.arg for a in f.node.args.args} | {
+                x.name for x in ast.walk(f.node) if isinstance(x, ast.FunctionDef) and x is not f.node}
+            used = {x.id for x in ast.walk(node) if isinstance(x, ast.Name) and isinstance(x.ctx, ast.Load)}
+            free = (used - params - stored) & (outer_locals - {inner})
+            if free:
+                raise Unsupported(f"nested function {inner} uses variables of its enclosing function: {sorted(free)}")
+            return self.make_function(node, mod.scope, qual=f.qualname + ".<locals>." + inner)
         parts = dotted.split(".")
         for i in range(len(parts), 0, -1):
             modname = ".".join(parts[:i])
